@@ -348,6 +348,10 @@ func checkErrorPosition(err *pongo2.Error, src string, compile bool) string {
 	if off < 0 {
 		return fmt.Sprintf("position %d:%d is outside the source", err.Line, err.Column)
 	}
+	if t := err.Token; t != nil && (t.Line != err.Line || t.Col != err.Column) {
+		// the message says "Line L Col C near '<token>'": the token it shows must be the one at that position
+		return fmt.Sprintf("the error is positioned at %d:%d but reports the token %q of %d:%d", err.Line, err.Column, t.Val, t.Line, t.Col)
+	}
 	if t := err.Token; t != nil && t.Line == err.Line && t.Col == err.Column {
 		rest := src[off:]
 		switch t.Typ {
